@@ -250,7 +250,10 @@ impl MachineState {
             (HeapCellValueTag::Cons, ptr) => {
                 match ptr.get_tag() {
                     ArenaHeaderTag::Rational | ArenaHeaderTag::Integer => {
-                        c
+                        // arena numbers are keyed by address in the constant
+                        // index, not by value: try every clause and let
+                        // unification compare the values.
+                        v
                     }
                     _ => {
                         IndexingCodePtr::Fail
